@@ -35,7 +35,12 @@ _NEAR6 = [F(0), F(1), F(1000001, 1000000), F(2), F(3), F(3000001, 1000000)]
 _BIG5 = [F(0), F(200001, 10), F(200005, 10), F(100000), F(1200003, 10)]
 _BIG6 = [F(0), F(2000001, 10), F(2000003, 10), F(1000000), F(12000003, 10)]
 _BIG7 = [F(0), F(30000001, 10), F(30000007, 10), F(100000004, 10), F(120000003, 10)]
-FAMILIES = dict(FAMILIES, NEAR6=lambda i: _NEAR6[i], BIG5=lambda i: _BIG5[i], BIG6=lambda i: _BIG6[i], BIG7=lambda i: _BIG7[i])
+# a die of 1e6 integer units with a 4-unit step next to the middle: whole-unit overlaps / gaps of 4 x 4 and 4 x 500000 units.
+# A 16-unit^2 corner overlap is 1.6e-11 of the die (below the comparison threshold of this check, so its verdict is not
+# prescribed) - but the verdict on ONE description with ONE netlist must not change from one call to the next
+_BIGNEAR = [F(0), F(500000), F(500004), F(1000000), F(1200000)]
+FAMILIES = dict(FAMILIES, NEAR6=lambda i: _NEAR6[i], BIG5=lambda i: _BIG5[i], BIG6=lambda i: _BIG6[i], BIG7=lambda i: _BIG7[i],
+                BIGNEAR=lambda i: _BIGNEAR[i])
 
 KINDS = ['#', 'dsp', 'fixed']
 TRIPLE_KINDS_QUICK = [('#', '#', '#'), ('dsp', '#', 'fixed'), ('fixed', 'dsp', '#'), ('fixed', 'fixed', 'dsp'),
@@ -86,7 +91,9 @@ def shards(tier):
         add('NEAR6', 4, 4, 2, 'quick')
         add('BIG5', 3, 3, 2, 'quick')
         add('BIG6', 3, 2, 2, 'quick')
+        add('BIGNEAR', 3, 3, 2, 'quick')
     else:
+        add('BIGNEAR', 3, 3, 3, 'quick')
         for fam in ('BIG5', 'BIG6', 'BIG7'):
             add(fam, 3, 3, 3, 'quick')
         add('NEAR6', 4, 4, 3, 'quick')
@@ -186,6 +193,16 @@ def check_case(case, res):
         d, err = None, e
     if tree != tree_before:
         res.violation('input-altered', case, attrs, 'the caller\'s description is left as it was', repr(tree)[:300])
+    # ---- the verdict on this description (with this netlist) is a function of the description: asking again gives the same
+    #      answer (whatever the answer is - this clause also covers descriptions whose validity is below the threshold)
+    try:
+        Die(copy.deepcopy(tree_before), netlist)
+        err2 = None
+    except Exception as e:  # noqa
+        err2 = e
+    if (err is None) != (err2 is None):
+        res.violation('verdict-not-repeatable', case, attrs, 'accepted' if err is None else f'rejected ({err})',
+                      'accepted' if err2 is None else f'rejected ({err2})')
     if not valid:
         # invalid by less than the comparison tolerance (an overlap / overhang of area < 1e-9*scale^2, e.g. a
         # 1e-6 x 1e-6 corner): below any area tolerance, both answers accepted (DESIGN 3.2)
